@@ -35,6 +35,48 @@ type Ctx struct {
 	known *KnownFile
 	ev    *Evidence
 	quiet bool
+
+	events []string
+	ncases int
+	warmTries int
+}
+
+// event appends one line to the run's event log (determinism self-test): the
+// key identifies the world, the parts are hashed.
+func (c *Ctx) event(key string, parts ...any) {
+	if os.Getenv("VERIF_EVENTLOG") == "" {
+		return
+	}
+	h := uint64(1469598103934665603)
+	for _, p := range parts {
+		var b []byte
+		switch x := p.(type) {
+		case string:
+			b = []byte(x)
+		case []byte:
+			b = x
+		default:
+			b = mustJSON(x)
+		}
+		for _, y := range b {
+			h = (h ^ uint64(y)) * 1099511628211
+		}
+		h = (h ^ 0xff) * 1099511628211
+	}
+	c.mu.Lock()
+	c.events = append(c.events, fmt.Sprintf("%s %016x", key, h))
+	c.mu.Unlock()
+}
+
+func (c *Ctx) writeEventLog() {
+	p := os.Getenv("VERIF_EVENTLOG")
+	if p == "" {
+		return
+	}
+	c.mu.Lock()
+	defer c.mu.Unlock()
+	sort.Strings(c.events)
+	_ = os.WriteFile(p, []byte(strings.Join(c.events, "\n")+"\n"), 0o644)
 }
 
 func (c *Ctx) logf(format string, a ...any) {
@@ -139,6 +181,13 @@ func NewEvidence() *Evidence {
 func (e *Evidence) Count(name string, n int) {
 	e.mu.Lock()
 	e.Counters[name] += n
+	e.mu.Unlock()
+}
+
+// Fire counts an injected fault / adverse environment state that actually happened.
+func (e *Evidence) Fire(kind string, n int) {
+	e.mu.Lock()
+	e.Fired[kind] += n
 	e.mu.Unlock()
 }
 
@@ -304,6 +353,7 @@ type ReplayFile struct {
 	CLI       *CLIWorld      `json:"cli,omitempty"`
 	CLIRef    *CLIWorld      `json:"cli_ref,omitempty"`
 	Host      *HostSpec      `json:"host,omitempty"`
+	Session   []SessionStep  `json:"session,omitempty"`
 	Expect    map[string]any `json:"expect,omitempty"`
 	Original  map[string]any `json:"original,omitempty"`
 	Minimised map[string]any `json:"minimised,omitempty"`
